@@ -115,6 +115,21 @@ def prefilter(cases):
     cases: list of (cfg_idx, code(str), label). Returns (kept, n_dropped)."""
     if not cases:
         return [], 0
+    # byte-level cases (not valid UTF-8) cannot be sent to the in-process finder as text; they are kept as they are
+    raw = [c for c in cases if isinstance(c[1], bytes)]
+    if raw:
+        kept, dropped = prefilter([c for c in cases if not isinstance(c[1], bytes)])
+        # interleave so that unreadable files sit between readable ones in every tree
+        out = []
+        step = max(1, len(kept) // (len(raw) + 1))
+        ri = 0
+        for i, c in enumerate(kept):
+            out.append(c)
+            if i % step == step - 1 and ri < len(raw):
+                out.append(raw[ri])
+                ri += 1
+        out += raw[ri:]
+        return out, dropped
     vh.cfg_paths()
     # balance by size: big files first, round-robin
     order = sorted(range(len(cases)), key=lambda i: -len(cases[i][1]))
